@@ -166,6 +166,25 @@ class Table(object):
                                      'Observable': np.nan, 'Value': np.nan,
                                      'Dose': d, 'Duration': dur})
             df = pd.DataFrame(rows)
+            if self.pre_eval and r.get('row_order') and not r.get('pop'):
+                # the same rows with the individuals in another order or
+                # interleaved (each individual's own rows keep their order:
+                # chi wants increasing times).  Only for the objects under
+                # test; replicas get the canonical order.  What a controller
+                # builds for ONE individual must not depend on it.
+                if r['row_order'] == 'reversed':
+                    ranks = {i_: -int(i_[1:]) for i_ in set(df['ID'])}
+                    order = sorted(range(len(df)),
+                                   key=lambda k_: ranks[df['ID'][k_]])
+                else:
+                    seen_ = {}
+                    pos_ = []
+                    for k_ in range(len(df)):
+                        c_ = seen_.get(df['ID'][k_], 0)
+                        seen_[df['ID'][k_]] = c_ + 1
+                        pos_.append(c_)
+                    order = sorted(range(len(df)), key=lambda k_: pos_[k_])
+                df = df.iloc[order].reset_index(drop=True)
             kw = {'dose_key': None, 'dose_duration_key': None}
             if r.get('doses'):
                 kw = {'dose_key': 'Dose', 'dose_duration_key': 'Duration'}
@@ -340,7 +359,7 @@ def query(obj, kind, q, x, aux):
         if q == 'c_names':
             return [str(n) for n in obj.get_parameter_names()] + [
                 'n=%d' % obj.get_n_parameters()]
-        ids = list(obj._ids)
+        ids = sorted(str(i_) for i_ in obj._ids)
         post = obj.get_log_posterior(
             individual=str(ids[aux['ind'] % len(ids)]))
         return post(x) if q == 'c_call' else post.evaluateS1(x)
@@ -943,6 +962,8 @@ def generate(rng, index, tier):
                 cr['dose_form'] = 'bolus'
         if rng.random() < 0.25:
             cr['keys'] = 'custom'
+        if rng.random() < 0.4:
+            cr['row_order'] = rng.choice(['reversed', 'interleaved'])
         if need_pop and rng.random() < 0.6 and zoo.pop_n_cov(pop) == 0:
             cpop = set_n_ids_recipe(pop, cr['n_ids'])
             recipes.append({'h': 'cpop', 'kind': 'pop', 'pop': cpop,
